@@ -38,8 +38,8 @@ ASSUMPTIONS = [
     "any exception counts as the permitted signal when the problem is infeasible, the total is 0 or a bound is NaN (0*inf relative bound); for a feasible problem only FailedConstraint/AssertionError do",
     "ProgramSet is built programmatically (ProgramSet.new on the tb_simple framework/data) with constant default spending; no simulation is run",
 ]
-BUDGET = {"quick": 40000, "thorough": 2000000}
-TIME_CAP = {"quick": 40, "thorough": 1100}
+BUDGET = {"quick": 24000, "thorough": 1600000}
+TIME_CAP = {"quick": 50, "thorough": 1150}
 
 INF = math.inf
 NPROG = 10
@@ -105,7 +105,7 @@ def _fill(lo, cap, s, w):
 def _snap(v):
     """[0,1] stays; (1,1.5] is mapped onto the special values 0, 1, 0.5 (one draw per number: Hypothesis draws dominate the run time)"""
     if v <= 1.0:
-        return v
+        return v if v >= 1e-9 else 0.0  # nothing between 0 and 1e-9 of the scale: denormal amounts are outside the domain
     return (0.0, 1.0, 0.0, 1.0, 0.5)[min(4, int((v - 1.0) * 10.0))]
 
 
@@ -286,7 +286,7 @@ def tsc_cases(draw):
     con = {"t": None, "total": None, "bf": 1.0}
     if years and draw(st.booleans()):
         con["t"] = sorted(draw(st.lists(st.sampled_from(years), min_size=1, max_size=len(years), unique=True)))
-        bk = draw(st.sampled_from(["one", "one", "scalar", "list"]))
+        bk = draw(st.sampled_from(["one", "scalar", "list", "list"]))
         if bk == "scalar":
             con["bf"] = draw(st.one_of(st.sampled_from([0.5, 2.0, 1.3, 0.0]), st.floats(min_value=0.1, max_value=3.0)))
         elif bk == "list":
@@ -649,6 +649,9 @@ def _check_tsc(case):
         got_unres = False
     except UnresolvableConstraint:
         got_unres = True
+    except (FailedConstraint, AssertionError) as e:
+        # applying the initial values already failed (e.g. package proportions whose feasible set is a single point): reported before optimization starts
+        return {"nontrivial": exp_unres, "labels": labels + ["setup-signal:" + type(e).__name__, "signalled-though-feasible(setup)"]}
     if borderline:
         labels.append("feasibility-borderline(rounding)")
     if got_unres != exp_unres and not borderline and not m["nanbound"]:
